@@ -90,6 +90,19 @@ def check_heading(title_words, phrase, n, sp1, sp2, case):
         m = re.search(r'<span class="rg-serving-count">(.*?)</span></h1>', h, re.S)
         if not m or str(2 * n) not in re.sub(r"<[^>]*>", "", m.group(1)):
             out.append(("C18:heading-count-not-scaled", "heading %r at scale 2: %r" % (heading, h[:300])))
+        # the heading still reads as written, with the count multiplied, at every scale (1 included)
+        import html as _html
+        from fractions import Fraction
+        from recipe_grid.number_formatting import format_number
+        for k in (1, 2, Fraction(3, 2)):
+            page = mr.render(k)
+            hm = re.search(r"<h1[^>]*>(.*?)</h1>", page, re.S)
+            shown = _html.unescape(re.sub(r"<ul.*?</ul>", "", hm.group(1), flags=re.S)) if hm else ""
+            shown = " ".join(_html.unescape(re.sub(r"<[^>]*>", "", shown)).replace("\u2044", "/").split())
+            want = " ".join((title_words + sp1 + ph + sp2 + format_number(n * k)).split())
+            if shown != want:
+                out.append(("C18:heading-text-wrong-when-rendered", "heading %r at scale %r reads %r, expected %r" % (heading, k, shown, want)))
+                break
     return out
 
 
@@ -100,7 +113,7 @@ def oracle(run):
         for case in ("lower", "upper", "title"):
             for _ in range(run.budget(6, 60)):
                 t = rng.choice(titles)
-                n = rng.choice([1, 2, 4, 12, 100, rng.randint(1, 999)])
+                n = rng.choice([1, 2, 4, 12, 100, 0, rng.randint(1, 999)])
                 sp1, sp2 = rng.choice([" ", "  "]), rng.choice([" ", "  "])
                 run.case(("documented", t, phrase, n, sp1, sp2, case), True, kind="documented:" + phrase)
                 for sig, detail in check_heading(t, phrase, n, sp1, sp2, case):
@@ -116,7 +129,9 @@ def oracle(run):
            ("# <b>x</b>\n\ntext\n\n# Stew for 6\n", (None, None)), ("# `code` pie\n\n# Pie for 3\n", (None, None)),
            ("# Plum Preserves 2\n", ("Plum Preserves 2", None)), ("# Remakes 3\n", ("Remakes 3", None)), ("# Uniform 4\n", ("Uniform 4", None)),
            ("# Pie, serves 4\n", ("Pie,", 4)), ("Needs {2} eggs per person.\n\n# Pancakes for 4\n", ("Pancakes", 4)),
-           ("Grandma's famous\nSunday roast for 6\n===\n", ("Grandma's famous\nSunday roast", 6)), ("Two line\ntitle\n=====\n", ("Two line\ntitle", None))]
+           ("Grandma's famous\nSunday roast for 6\n===\n", ("Grandma's famous\nSunday roast", 6)), ("Two line\ntitle\n=====\n", ("Two line\ntitle", None)),
+           ("# Soup {v2\\} for 4\n", ("Soup {v2}", 4)), ("Tiffin {nut free\\} SERVES  6\n===\n", ("Tiffin {nut free}", 6)), ("# Hello \\{ and \\} for 3\n", ("Hello { and }", 3)),
+           ("# Soup for 0\n", ("Soup", 0))]
     for doc, (t, n) in neg:
         mr = M.compile_markdown(doc)
         run.case(("negative", doc), True, kind="negative")
